@@ -221,10 +221,6 @@ var c13f64Boundaries = []uint64{0, 0x8000000000000000, 1, 0x8000000000000001, 0x
 // the two float32 values of DESIGN §6 F11
 var c13f11 = []uint32{0x15ae43fd, 0x95ae43fd}
 
-func c13isF11(c c13const) bool {
-	return c.kind == "f32" && (uint32(c.u) == c13f11[0] || uint32(c.u) == c13f11[1])
-}
-
 func c13randF32(r *rng) uint32 {
 	for {
 		var b uint32
@@ -238,7 +234,7 @@ func c13randF32(r *rng) uint32 {
 		default: // integer valued
 			b = math.Float32bits(float32(int32(r.u64()) >> uint(r.intn(31))))
 		}
-		if b&0x7f800000 != 0x7f800000 && b != c13f11[0] && b != c13f11[1] {
+		if b&0x7f800000 != 0x7f800000 {
 			return b
 		}
 	}
@@ -926,8 +922,8 @@ func c13sweepF32(start, count uint64, budget time.Duration) (checked uint64, bad
 						continue // Inf / NaN: not finite
 					}
 					f := math.Float32frombits(bits)
-					// same computation as operand.F32.Asm (checked against it on a sample below)
-					s := strconv.FormatFloat(float64(f), 'f', -1, 32)
+					// the real code: operand.F32.String() is what Asm() wraps in `$(…)` (tied on a sample below)
+					s := operand.F32(f).String()
 					v, err := strconv.ParseFloat(s, 64)
 					if err != nil || math.Float32bits(float32(v)) != bits {
 						mu.Lock()
@@ -1123,7 +1119,7 @@ func init() {
 			}
 		}
 		// strings
-		for _, s := range []string{"", "a", "\"", "\\", "\x00", "\n", "\xff", "é", " ", "\U0001f600", "\xed\xa0\x80", "a\"b\\c\x00d\ne\x7f", "\xc3", "\xef\xbf\xbd", "$(1.0)", "%q %d"} {
+		for _, s := range []string{"", "a", "\"", "\\", "\x00", "\n", "\xff", "é", " ", "\U0001f600", "\xed\xa0\x80", "a\"b\\c\x00d\ne\x7f", "\xc3", "\xef\xbf\xbd", "$(1.0)", "%q %d", "\u00b7", "\u2215", "a\u00b7b\u2215c", "\xc2\xb7\xe2\x88"} {
 			c13emitStr(o, s, st)
 		}
 		for j := 0; j < *f.n/4+50; j++ {
@@ -1154,17 +1150,13 @@ func init() {
 			{name: "e5", attrs: attr.NOPTR, ops: []c13op{{kind: 'a', c: c13const{kind: "f64", u: 0x8000000000000000}}, {kind: 'g', off: 32}, {kind: 'a', c: c13const{kind: "f32", u: 0x80000000}}, {kind: 'p', off: 8, c: c13const{kind: "s", s: "abc\x00\xff\"é"}}}},
 			{name: "e6", attrs: attr.RODATA | attr.NOPTR, viaConstData: true, ops: []c13op{{kind: 'a', c: c13const{kind: "u64", u: 0xffffffffffffffff}}}},
 			{name: "e7", attrs: attr.NOPTR, ops: []c13op{{kind: 'p', off: -4, c: c13const{kind: "u32", u: 1}}}},
+			{name: "e9", attrs: attr.NOPTR, ops: []c13op{{kind: 'a', c: c13const{kind: "s", s: "p\u00b7q"}}, {kind: 'a', c: c13const{kind: "u8", u: 7}}}}, // F15
 			{name: "e8", attrs: attr.NOPTR, ops: []c13op{{kind: 'p', off: 4, c: c13const{kind: "i64", i: math.MinInt64}}, {kind: 'p', off: 0, c: c13const{kind: "i64", i: 1}}, {kind: 'p', off: 12, c: c13const{kind: "i16", i: -32768}}}},
 		}
 		var meas, nonmono []c13meas
 		consider := func(c c13case, res c13result) {
 			if res.panicked || !c13inScope(c) || res.size > 1<<16 {
 				return
-			}
-			for _, d := range res.data {
-				if c13isF11(d.c) {
-					return
-				}
 			}
 			c.attrs = pick(r, []attr.Attribute{attr.NOPTR, attr.RODATA | attr.NOPTR, attr.NOPTR | attr.DUPOK})
 			m := c13meas{c: c, data: res.data, size: res.size}
@@ -1190,6 +1182,9 @@ func init() {
 
 		// 3. measured: sections read back from a running binary; a dedicated section of floats
 		var fl []c13op
+		for _, b := range c13f11 {
+			fl = append(fl, c13op{kind: 'a', c: c13const{kind: "f32", u: uint64(b)}})
+		}
 		for _, b := range c13f32Boundaries {
 			fl = append(fl, c13op{kind: 'a', c: c13const{kind: "f32", u: uint64(b)}})
 		}
@@ -1213,7 +1208,7 @@ func init() {
 				ops = append(ops, c13op{kind: 'a', c: c13const{kind: "f32", u: uint64(b)}})
 			}
 			wc := c13case{name: "w", attrs: attr.RODATA | attr.NOPTR, ops: ops}
-			var sub out2
+			var sub c13out2
 			if err := c13measureRaw(filepath.Join(*workdir, "f11"), wc, &sub); err == nil && len(sub.bytes) == 4*len(c13f11) {
 				for i, b := range c13f11 {
 					got := uint32(sub.bytes[4*i]) | uint32(sub.bytes[4*i+1])<<8 | uint32(sub.bytes[4*i+2])<<16 | uint32(sub.bytes[4*i+3])<<24
@@ -1243,18 +1238,17 @@ func init() {
 			}
 			c13emitF32(o, b, st)
 		}
-		// tie the sweep's inlined formatting to operand.F32.Asm on a sample
+		// tie String() (used by the sweep) to Asm() on a sample
 		for j := 0; j < 2000; j++ {
 			b := c13randF32(r)
-			want := strconv.FormatFloat(float64(math.Float32frombits(b)), 'f', -1, 32)
-			if !strings.ContainsRune(want, '.') {
-				want += ".0"
+			if j < len(c13f11) {
+				b = c13f11[j]
 			}
-			if got := c13floatText(operand.F32(math.Float32frombits(b))); got != want {
-				// the implementation prints floats differently from what the sweep assumed:
-				// judge every sample through the real Asm()
+			f := operand.F32(math.Float32frombits(b))
+			if got, want := f.Asm(), "$("+f.String()+")"; got != want {
+				// Asm() does not print String(): judge the sample through the real Asm()
 				c13emitF32(o, b, st)
-				st["f32_format_differs_from_sweep"]++
+				st["f32_asm_differs_from_string"]++
 			}
 		}
 		stats := map[string]any{}
@@ -1269,11 +1263,11 @@ func init() {
 	})
 }
 
-type out2 struct{ bytes []byte }
+type c13out2 struct{ bytes []byte }
 
 // c13measureRaw builds a one-section program and returns the symbol's bytes.
-func c13measureRaw(dir string, c c13case, res *out2) error {
-	o, err := newNullOut()
+func c13measureRaw(dir string, c c13case, res *c13out2) error {
+	o, err := c13newNullOut()
 	if err != nil {
 		return err
 	}
@@ -1284,7 +1278,7 @@ func c13measureRaw(dir string, c c13case, res *out2) error {
 	if err := c13measure(dir, ms, o, st, "w"); err != nil {
 		return err
 	}
-	outp, err := exec.Command(filepath.Join(mustAbs(dir), "c13data")).Output()
+	outp, err := exec.Command(filepath.Join(c13mustAbs(dir), "c13data")).Output()
 	if err != nil {
 		return err
 	}
@@ -1297,7 +1291,7 @@ func c13measureRaw(dir string, c c13case, res *out2) error {
 	return err
 }
 
-func mustAbs(p string) string {
+func c13mustAbs(p string) string {
 	a, err := filepath.Abs(p)
 	if err != nil {
 		panic(err)
@@ -1305,7 +1299,7 @@ func mustAbs(p string) string {
 	return a
 }
 
-func newNullOut() (*out, error) {
+func c13newNullOut() (*out, error) {
 	fo, err := os.OpenFile(os.DevNull, os.O_WRONLY, 0)
 	if err != nil {
 		return nil, err
